@@ -40,7 +40,9 @@ def lock_stages(profile, quick_cases, thorough_cases, thorough_r10=None):
     q = [{"variant": "lock_r1", "binary": "lock_harness", "profile": profile, "cases_per_worker": quick_cases, "max_seconds": 240}]
     t = [{"variant": "lock_r1", "binary": "lock_harness", "profile": profile, "cases_per_worker": thorough_cases, "max_seconds": 1500},
          {"variant": "lock_r10", "binary": "lock_harness", "profile": profile, "cases_per_worker": thorough_r10 or thorough_cases // 2,
-          "max_seconds": 1500}]
+          "max_seconds": 1500},
+         {"variant": "lock_fuzz", "binary": "lock_fuzz", "replay_variant": "lock_r1", "replay_binary": "lock_harness", "profile": profile,
+          "engine": "libFuzzer (coverage-guided; bytes decoded into a lock-DSL case, oracle inside the target)", "cases_per_worker": 60000, "max_seconds": 900}]
     return {"quick": q, "thorough": t}
 
 
@@ -90,7 +92,9 @@ ZIPF_ASSUME = [
 
 def zipf_stages(profile, quick_cases, thorough_cases):
     return {"quick": [{"variant": "zipf", "binary": "zipf_harness", "profile": profile, "cases_per_worker": quick_cases, "max_seconds": 300}],
-            "thorough": [{"variant": "zipf", "binary": "zipf_harness", "profile": profile, "cases_per_worker": thorough_cases, "max_seconds": 2400, "extra": ["--big"]}]}
+            "thorough": [{"variant": "zipf", "binary": "zipf_harness", "profile": profile, "cases_per_worker": thorough_cases, "max_seconds": 2400, "extra": ["--big"]},
+                         {"variant": "zipf", "binary": "zipf_fuzz", "replay_binary": "zipf_harness", "profile": profile, "engine": "libFuzzer (coverage-guided, structure-aware decode)",
+                          "cases_per_worker": 300000 if profile == "C06" else 60000, "max_seconds": 1200}]}
 
 
 RULES["C20"] = ("cases = sequential histories over {Pin(thread, via CreateEpochGuard|GetProtectedEpochs), Unpin(thread), Forward(n up to 1000), ExitAndReplace(thread)} "
